@@ -124,6 +124,15 @@ theorem replace_in_dict_keeps_links_mirrored (s : Efp.Links.LS) (old new : Nat) 
     (h : Efp.Links.replaceInDict s old new = .ok s') : Efp.Links.Mirror s' ∧ Efp.Links.Uniq s' :=
   Efp.Links.replaceInDict_links s old new s' hM hU hnew h
 
+/-- **with shared ids the graph cannot be consistent**: if children lists never hold two entries with the
+same id (what `add_child_to_direct_children_with_id` enforces) then two attached values with the same id
+and a common recorded ancestor — two entries of the per-usage-pattern dict of a job reachable from two usage
+patterns — cannot both be listed by it: the statement of C08 (and C01) is false on that domain (D2) -/
+theorem shared_ids_cannot_be_mirrored (s : Efp.Links.LS) (hU : Efp.Links.ChiUniq s) (v₁ v₂ a : Nat) (sl : Efp.Links.Slot)
+    (h₁ : (s.get v₁).cont = some sl) (h₂ : (s.get v₂).cont = some sl) (hne : v₁ ≠ v₂)
+    (ha₁ : a ∈ (s.get v₁).anc) (ha₂ : a ∈ (s.get v₂).anc) : ¬ Efp.Links.Mirror s :=
+  Efp.Links.shared_id_contradicts_mirror s hU v₁ v₂ a sl h₁ h₂ hne ha₁ ha₂
+
 /-- input 0 in slot (0,0); value 1 computed from it, held in the dict (0,100) under key 0; a freshly
 computed replacement 2 -/
 def demoDict : Except Efp.Links.LErr Efp.Links.LS :=
